@@ -325,7 +325,8 @@ pub fn run(rng: &mut R, out: &mut Out) {
         on_value(out, &gen::tx_wide(rng, a, b), rng, 1);
     }
     // scripts at the 2-byte / 4-byte varint boundaries
-    let lens: Vec<usize> = if out.tier_thorough { vec![0xfc, 0xfd, 0xffff, 0x10000, 4_000_000, 4_000_001] } else { vec![0xfc, 0xfd, 0xffff, 0x10000] };
+    // incl. the byte-vector allocation guard exactly at MAX_VEC_SIZE (accepted) and one above (rejected)
+    let lens: Vec<usize> = vec![0xfc, 0xfd, 0xffff, 0x10000, 3_999_999, 4_000_000, 4_000_001];
     for l in lens {
         let s = Script::from(gen::bytes(rng, l));
         if l <= 4_000_000 { on_value(out, &s, rng, 0); } else { on_bytes::<Script>(out, &serialize(&s), "oversized"); }
